@@ -197,6 +197,44 @@ func runC18(c *eng.Ctx) {
 		}
 	})
 
+	// ---- 3b. an election only reads the assignment ------------------------------------------------------------------------------------
+	c.Rule("PROV", "coordinator/master.replicaLeaderElector.ElectLeader{assignment is read-only}", func() {
+		f := c.Fn("coordinator/master.replicaLeaderElector.ElectLeader")
+		n := 0
+		for _, b := range eng.BlocksT(f) {
+			for _, in := range b.Instrs {
+				var dst ssa.Value
+				what := ""
+				switch x := in.(type) {
+				case *ssa.Call:
+					if ks := p.CalleeKeys(x); len(ks) == 1 && ks[0] == "builtin:append" {
+						dst, what = x.Common().Args[0], "append to"
+					}
+				case *ssa.Store:
+					switch a := x.Addr.(type) {
+					case *ssa.IndexAddr:
+						dst, what = a.X, "element store into"
+					case *ssa.FieldAddr:
+						if _, local := a.X.(*ssa.Alloc); !local {
+							dst, what = a.X, "field store through"
+						}
+					}
+				case *ssa.MapUpdate:
+					dst, what = x.Map, "map update of"
+				}
+				if dst == nil {
+					continue
+				}
+				n++
+				shared := sharesInputMemory(dst, map[ssa.Value]bool{})
+				c.Check(!shared, fmt.Sprintf("no-write-into-the-assignment[%d]", n), in, f,
+					"ElectLeader builds its candidate list in memory of its own: it never writes through the shard assignment or the live-node set it was given (they are the cluster state every later election and every node reads)",
+					what+" "+p.Desc(dst)+", which shares memory with an argument of the election")
+			}
+		}
+		c.Check(n > 0, "writes-examined", nil, f, "the election's writes were examined", "no append/store found")
+	})
+
 	// ---- 4. coverage of the handlers ------------------------------------------------------------------------------------------
 	c.Rule("UNION", smgrT+"{which shards are revisited}", func() {
 		f := c.Fn(smgrT + ".onNodeFailure")
@@ -375,4 +413,101 @@ func shiftRange(c *eng.Ctx, f *ssa.Function) {
 	c.Check(okR, "replicaIndex:shift-in-[1,n-1]", rets[0], f,
 		"the shift added to the first replica's index is provably within [1, nodes-1] (so a follower never lands on the first replica's node)",
 		fmt.Sprintf("shift = %s has range lo=%d hi=%d*n%+d (ok=%v)", p.Desc(shift), b.lo, b.hiN, b.hiC, b.ok))
+}
+
+// sharesInputMemory: may the slice / map / pointer value v refer to memory that was reachable from a parameter of its
+// function when the function was entered? Fresh allocations, constants and results of append to a fresh slice do not;
+// a re-slice of an argument's slice does (x[:0] keeps the backing array), unless its capacity is cut to zero
+// (x[:0:0]). A local struct variable is followed through the values stored into the field read.
+func sharesInputMemory(v ssa.Value, seen map[ssa.Value]bool) bool {
+	if v == nil || seen[v] {
+		return false
+	}
+	seen[v] = true
+	switch x := v.(type) {
+	case *ssa.Parameter, *ssa.FreeVar, *ssa.Global:
+		return true
+	case *ssa.Const, *ssa.MakeSlice, *ssa.MakeMap, *ssa.Alloc:
+		return false
+	case *ssa.Phi:
+		for _, e := range x.Edges {
+			if sharesInputMemory(e, seen) {
+				return true
+			}
+		}
+		return false
+	case *ssa.Slice:
+		if x.Max != nil {
+			lo := int64(0)
+			if x.Low != nil {
+				l, ok := eng.ConstInt(x.Low)
+				if !ok {
+					return sharesInputMemory(x.X, seen)
+				}
+				lo = l
+			}
+			if m, ok := eng.ConstInt(x.Max); ok && m == lo {
+				return false // capacity 0: the first append allocates
+			}
+		}
+		return sharesInputMemory(x.X, seen)
+	case *ssa.Call:
+		if b, ok := x.Common().Value.(*ssa.Builtin); ok && b.Name() == "append" {
+			return sharesInputMemory(x.Common().Args[0], seen)
+		}
+		return false
+	case *ssa.ChangeType:
+		return sharesInputMemory(x.X, seen)
+	case *ssa.Convert:
+		return sharesInputMemory(x.X, seen)
+	case *ssa.Field:
+		return sharesInputMemory(x.X, seen)
+	case *ssa.Extract:
+		return sharesInputMemory(x.Tuple, seen)
+	case *ssa.Lookup:
+		return sharesInputMemory(x.X, seen)
+	case *ssa.Index:
+		return sharesInputMemory(x.X, seen)
+	case *ssa.IndexAddr:
+		return sharesInputMemory(x.X, seen)
+	case *ssa.FieldAddr:
+		return sharesInputMemory(x.X, seen)
+	case *ssa.UnOp:
+		if x.Op != token.MUL {
+			return false
+		}
+		// a load: from a field of a local variable -> whatever was stored there; otherwise from wherever the address points
+		if fa, ok := x.X.(*ssa.FieldAddr); ok {
+			if al, ok := fa.X.(*ssa.Alloc); ok {
+				for _, ref := range *al.Referrers() {
+					switch r := ref.(type) {
+					case *ssa.FieldAddr:
+						if r.Field != fa.Field {
+							continue
+						}
+						for _, rr := range *r.Referrers() {
+							if st, ok := rr.(*ssa.Store); ok && st.Addr == ssa.Value(r) && sharesInputMemory(st.Val, seen) {
+								return true
+							}
+						}
+					case *ssa.Store:
+						if r.Addr == ssa.Value(al) && sharesInputMemory(r.Val, seen) {
+							return true
+						}
+					}
+				}
+				return false
+			}
+		}
+		if al, ok := x.X.(*ssa.Alloc); ok {
+			for _, ref := range *al.Referrers() {
+				if st, ok := ref.(*ssa.Store); ok && st.Addr == ssa.Value(al) && sharesInputMemory(st.Val, seen) {
+					return true
+				}
+			}
+			return false
+		}
+		return sharesInputMemory(x.X, seen)
+	}
+	return false
 }
